@@ -663,7 +663,7 @@ def _check_case(ctx, real, codec, shape, reqs, keys, tag):
     shape_id = json.dumps(shape, sort_keys=True)
     served = {}
     flags = []
-    to_shrink = []
+    to_shrink, later = [], []
     if not hasattr(ctx, "c02_seen"):
         ctx.c02_seen = set()
     for r, (reply, eff) in zip(reqs, results):
@@ -676,7 +676,7 @@ def _check_case(ctx, real, codec, shape, reqs, keys, tag):
             ctx.sample({"shape": shape, "request": r, "reply": reply, "effects": eff})
         for sig, desc in judge(shape, r, reply, eff):
             if sig in ctx.c02_seen:
-                ctx.fail(sig, desc + " [%s]" % tag, {"shape": shape, "req": r})
+                later.append((sig, desc + " [%s]" % tag, {"shape": shape, "req": r}))
             else:
                 ctx.c02_seen.add(sig)
                 to_shrink.append((sig, desc, r))
@@ -696,11 +696,13 @@ def _check_case(ctx, real, codec, shape, reqs, keys, tag):
             s[kind] = reply == "result"
         full[n] = s
     for sig, desc in judge_metadata(shape, md, full):
-        ctx.fail(sig, desc + " [%s]" % tag, {"shape": shape, "req": None})
+        later.append((sig, desc + " [%s]" % tag, {"shape": shape, "req": None}))
     line = real_line(None, md, results)
     for sig, desc, r in to_shrink:      # first failure of each class in a run: minimise the shape (re-running the real code)
         small = _shrink(real, shape, r, sig)
         ctx.fail(sig, desc + " [%s, shape minimised]" % tag, {"shape": small, "req": r})
+    for sig, desc, case in later:
+        ctx.fail(sig, desc, case)
     return line, flags
 
 
